@@ -584,7 +584,70 @@ def version_facts(mods):
     hp = ast.unparse(func_ast(handler.handle_presentation, "handler.handle_presentation", True)).replace(" ", "")
     if ".protocol_version=msg.payload" not in hp:
         fail("handler.handle_presentation", "node version is not taken from the payload")
+    out += alert_facts(mods)
     return out
+
+
+def alert_facts(mods):
+    """Gateway.alert: is the event callback called when set, and is persistence marked dirty on every
+    alert, only when a callback is set, or never (what makes the persistence option take effect)."""
+    w = "Gateway.alert"
+    fn = func_ast(mods["mysensors"].Gateway.alert, w)
+    body = strip_doc(fn.body)
+    if [a.arg for a in fn.args.args] != ["self", "msg"]:
+        fail(w, "signature")
+
+    def norm(e):
+        return ast.unparse(e).replace(" ", "")
+
+    def has(node, pred):
+        return any(pred(n) for n in ast.walk(node))
+
+    def is_dirty(n):
+        return isinstance(n, ast.Assign) and norm(n) == "self.tasks.persistence.need_save=True"
+
+    def is_call(n):
+        return isinstance(n, ast.Call) and norm(n.func) == "self.event_callback"
+
+    def is_exit(n):
+        return isinstance(n, (ast.Return, ast.Raise))
+    guard = None          # None: unconditional so far; "cb": only reached when a callback is set
+    dirty, called = "DirtyNever", "false"
+    for st in body:
+        cb_only = guard == "cb"
+        if isinstance(st, ast.If) and norm(st.test) in ("self.event_callback is None".replace(" ", ""),
+                                                        "notself.event_callback") \
+                and len(st.body) == 1 and isinstance(st.body[0], ast.Return) and not st.orelse:
+            guard = "cb"
+            continue
+        if isinstance(st, ast.If) and norm(st.test) in ("self.event_callbackisnotNone", "self.event_callback") \
+                and not st.orelse:
+            inner_cb = True
+            inner = st.body
+        else:
+            inner_cb = cb_only
+            inner = [st]
+        for sub in inner:
+            if has(sub, is_call):
+                if not inner_cb:
+                    fail(w, "callback called without testing that it is set")
+                if isinstance(sub, ast.Try):
+                    if has(ast.Module(body=sub.body, type_ignores=[]), is_exit):
+                        fail(w, sub)
+                called = "true"
+            if has(sub, is_dirty):
+                if not (isinstance(sub, ast.If) and norm(sub.test) in ("self.tasks.persistence",
+                                                                       "self.tasks.persistenceisnotNone")
+                        and len(sub.body) == 1 and is_dirty(sub.body[0]) and not sub.orelse) and not is_dirty(sub):
+                    fail(w, sub)
+                dirty = "DirtyOnlyWithCallback" if inner_cb else "DirtyAlways"
+            elif not has(sub, is_call) and has(sub, is_exit):
+                fail(w, sub)
+            elif not has(sub, is_call) and not (isinstance(sub, ast.Expr) and isinstance(sub.value, ast.Call)
+                                                and norm(sub.value.func).startswith("_LOGGER.")):
+                fail(w, sub)
+    return ["Definition alert_calls_callback : bool := %s." % called,
+            "Definition alert_dirty : dirty_kind := %s." % dirty]
 
 
 # ------------------------------------------------------------------ documented examples
